@@ -75,6 +75,7 @@ func TestC17FlushAll(t *testing.T) {
 	s := kit.Begin(t, "C17", "flush-all",
 		"C16 assemblies with >=1 write-back cache; workload runs to quiescence (optionally interrupted at k/16 of its length by Drain+Flush of every cache top-down followed by Enable bottom-up); then every cache is drained and flushed top-down. Oracle: every control request acknowledged with Success, and for every address ever written the backing storage holds the byte of the most recent acknowledged write (flat reference built from the requesters' acknowledgement logs). Cases whose data oracle (C16) fails with a listed C16 signature are counted and not judged. Non-trivial: at the final flush some write-back cache held >=2 dirty lines")
 	defer s.End()
+	s.Assume("assemblies are linear chains (requesters -> level 0 -> ... -> bottom); trees with sibling caches sharing a lower level are not generated (DESIGN 11.3, seeded change C17-C)")
 	run := func(f kit.Failer, c c17Case) {
 		var fail *memsys.Failure
 		dirtyAtFlush := 0
